@@ -1131,6 +1131,37 @@ func caseTx(o *out.Out, r *gen.Rand, c int) {
 			o.Fail(step, "chainid-not-bound", "V of chain id+1 under signer "+s.tok()+": "+ores)
 		}
 	}
+	// re-target V to another signer while keeping (r, s, recid): the hash must bind the chain id
+	{
+		targets := []sgn{{}}
+		for _, cs := range []string{"0", "1", "24"} {
+			cc, _ := new(big.Int).SetString(cs, 10)
+			targets = append(targets, sgn{chain: cc})
+		}
+		if s.chain != nil {
+			targets = append(targets, sgn{chain: new(big.Int).Add(s.chain, big.NewInt(1))})
+		}
+		for _, ts := range targets {
+			// chain id 0 and Homestead both mean "unprotected": same hash as each other
+			unprotT := ts.chain == nil || ts.chain.Sign() == 0
+			unprotS := s.chain == nil || s.chain.Sign() == 0
+			if ts.tok() == s.tok() || (unprotT && unprotS) {
+				continue
+			}
+			step++
+			rt := t.clone()
+			if unprotT {
+				rt.v = big.NewInt(27 + int64(recid))
+			} else {
+				rt.v = new(big.Int).Add(new(big.Int).Mul(ts.chain, big.NewInt(2)), big.NewInt(35+int64(recid)))
+			}
+			o.Count("tx.retarget")
+			rres, _ := opSD(o, ts, rt)
+			if rres == "ok:"+anum(addr) {
+				o.Fail(step, "chainid-not-in-hash", fmt.Sprintf("signature made under %s re-targeted (V=%s) to signer %s still recovers the signer", s.tok(), rt.v, ts.tok()))
+			}
+		}
+	}
 	o.Mark(fmt.Sprintf("tx|%s|n%d|p%d|g%d|to%v|a%d|d%d|%s", s.tok(), bitlen(t.nonce), t.price.BitLen(), bitlen(t.gas), t.to != nil, t.amount.BitLen(), len(t.payload), shape))
 }
 
